@@ -88,7 +88,7 @@ static FileInfo make_file(Rng& r, const std::string& dir, int idx) {
   FileInfo f;
   int nd = r.range(1, 3);
   std::vector<uint32_t> ord; std::vector<std::vector<double>> kn;
-  for (int d = 0; d < nd; d++) { int o = r.range(0, 3); ord.push_back(o); kn.push_back(psv::gen_knots(r, o, r.range(0, 3), 0)); }
+  for (int d = 0; d < nd; d++) { int o = r.range(1, 3); /* order >= 1: convolving an order-0 dimension runs into the factorial(0) defect (C14), ~10 s per call */ ord.push_back(o); kn.push_back(psv::gen_knots(r, o, r.range(0, 3), 0)); }
   std::vector<float> coef(psv::ncoef(ord, kn)); for (auto& c : coef) c = (float)r.unit();
   f.path = dir + "/t" + std::to_string(idx) + ".fits";
   {
@@ -281,6 +281,7 @@ static Op gen_op(Rng& r, int nconv) {
   CT* a = slot[o.i];
   static const char live_ops[] = "RRMTTWWWWKKGVVPPAEOQDXRFC";
   if (!a) { const char c[] = "CCCFFX"; o.tag = c[r.below(6)]; }
+  else if (a->ndim == 0 && r.coin(2, 3)) { const char c[] = "RRMTTR"; o.tag = c[r.below(6)]; } // populate empty tables most of the time
   else o.tag = live_ops[r.below(sizeof(live_ops) - 1)];
   if (o.tag == 'X' || o.tag == 'A' || o.tag == 'E') { // second operand: prefer a live one
     for (int k = 0; k < 4 && (!slot[o.j] || (o.tag != 'E' && o.j == o.i)); k++) o.j = r.range(0, NSLOT - 1);
@@ -295,6 +296,8 @@ static Op gen_op(Rng& r, int nconv) {
     case 'T': o.valid = !r.coin(1, 6); o.order = r.range(1, 2); o.nknots = r.range(9, 12); break;
     case 'W': case 'K': case 'G': {
       o.keyid = r.range(1, NKEYS); o.key = KEYS[o.keyid];
+      if (a && a->ndim != 0 && a->naux > 0 && a->aux && r.coin()) { // aim at a key the table already has (update / removal paths)
+        o.key = &a->aux[r.below(a->naux)][0][0]; o.keyid = key_id(o.key.c_str()); }
       if (o.tag == 'W') {
         int c = r.below(12);
         if (c == 0) { o.wkind = 1; o.key = "ORDER7"; o.keyid = 90; }            // reserved
@@ -304,7 +307,7 @@ static Op gen_op(Rng& r, int nconv) {
         if (o.wkind == 0) { o.isint = r.coin(); o.ival = r.below(100000); o.sval = std::string(1 + r.below(12), 'a' + r.below(26)); }
       } else if (r.coin(1, 8)) { o.key = "NOSUCH"; o.keyid = 92; }
       break; }
-    case 'V': { int nd = a ? a->ndim : 0; o.dim = r.coin(1, 6) ? nd + r.below(2) : (nd ? r.below(nd) : 0); o.nk = r.range(1, 3);
+    case 'V': { int nd = a ? a->ndim : 0; o.dim = r.coin(1, 6) ? nd + r.below(2) : (nd ? r.below(nd) : 0); o.nk = r.coin(1, 10) ? 0 : r.range(2, 3); /* not 1: a one-knot kernel also runs into factorial(0) (C14) */
       if (nconv >= 2 && o.dim < nd) o.dim = nd; // keep tables small: at most two successful convolutions
       break; }
     case 'P': { int nd = a ? a->ndim : 0; o.perm.resize(nd); for (int k = 0; k < nd; k++) o.perm[k] = k;
